@@ -334,9 +334,20 @@ func (c *Controller) resolveMatch(ls *linkState, hashBytes []byte, ms link.Mount
 	// All matching directives receive the same value: the stream has a single
 	// owner, whichever caller accepts the value first.
 	sms := link_solicit.NewSolicitMountedStream(ms)
+	var delivered bool
 	for _, ss := range matches {
 		if _, ok := ss.handler.AddValue(sms); ok {
+			delivered = true
 			ls.le.WithField("hash", hashHex).Debug("emitted SolicitMountedStream value")
+		}
+	}
+
+	// Nobody took the value: no directive solicits this hash on this link
+	// (any more), or every handler refused it. Close the stream instead of
+	// leaking it, so the remote end does not wait on it forever.
+	if !delivered {
+		if cl, ok := sms.(interface{ Close() bool }); ok && cl.Close() {
+			ls.le.WithField("hash", hashHex).Debug("closed solicited stream without a matching directive")
 		}
 	}
 }
